@@ -107,5 +107,16 @@ Definition ok_C07 (sc : scenario) (q : rec) : bool :=
                else negb (r_undef r))
       else negb (q_used q) && negb (r_undef r)).
 
+(* history-level judge for C05: along a sequence of states of one episode (no reset) every
+   host's value is paid at most once, every discovery value at most once, and the values
+   reported by the steps add up to what was gained between the first and the last state *)
+Definition ok_C05_history (sc : scenario) (sts : list state) (values : list Z) : bool :=
+  all_addr sc (fun x => Nat.leb (count_pairs (fun s s' => newly_rooted sc s s' x) sts) 1
+                        && Nat.leb (count_pairs (fun s s' => newly_disc sc s s' x) sts) 1)
+  && match sts with
+     | [] => true
+     | s0 :: _ => sumZ values =? gained sc s0 (last sts s0)
+     end.
+
 Definition judge_all (sc : scenario) (q : rec) : list bool :=
   [ok_C01 sc q; ok_C02 sc q; ok_C03 sc q; ok_C04 sc q; ok_C05 sc q; ok_C06 sc q; ok_C07 sc q].
